@@ -414,7 +414,7 @@ def check_post_end(obs, ro):
         if r['run'] != run:
             continue
         k = r['k']
-        if k in ('submit', 'default_call') or k.startswith('cb_node') or k == 'save' or \
+        if k in ('submit', 'default_call', 'pool_start') or k.startswith('cb_node') or k == 'save' or \
                 k == 'cb_pipeline_start' or k == 'cb_pipeline_complete':
             out.append(F(['C13'], 'started_after_end', what=k, node=r['node'], step=r['step'],
                          end_step=ro.end_step))
